@@ -6,6 +6,7 @@ package main
 
 import (
 	"fmt"
+	"sync/atomic"
 	"time"
 
 	"github.com/usnistgov/dastard"
@@ -17,6 +18,7 @@ type c10Abaco struct {
 	nchan, fpp, ppt int
 	sn              uint32
 	k               uint64
+	stopped         atomic.Bool
 }
 
 func (a *c10Abaco) packet() *packets.Packet {
@@ -38,6 +40,9 @@ func (a *c10Abaco) packet() *packets.Packet {
 }
 
 func (a *c10Abaco) next() []*packets.Packet {
+	if a.stopped.Load() {
+		return nil // the packet stream has stopped
+	}
 	out := make([]*packets.Packet, 0, a.ppt)
 	for i := 0; i < a.ppt; i++ {
 		out = append(out, a.packet())
@@ -108,6 +113,88 @@ func lcAsmReq(idx, rounds, nreq, k int) string {
 		h.sc.VerifRefresh()
 		dastard.VerifNote("flag.refresh")
 		lcSettle()
+	}
+	return h.finish(true)
+}
+
+// lcAbacoSelfEnd: a running Abaco source whose packet stream stops and nobody calls Stop.  The reader's no-data
+// time-out (5 s) must end the run cleanly: devices released, nextBlock closed, source Inactive, and the same
+// object startable again.  The reader's timer is re-armed right after it queues its last buffer; the block
+// assembler's own watchdog (which panics) is armed only when the loop asks for the next block after processing
+// that buffer.  To keep that order independent of the machine's load the loop is parked at `loop.processed`
+// (before its next getNextBlock) and, once the stream has stopped, held there for 300 ms.
+func lcAbacoSelfEnd(idx int) string {
+	h := lcNew("tri", idx)
+	as, err := dastard.NewAbacoSource()
+	if err != nil {
+		return h.finish(false)
+	}
+	gen := &c10Abaco{nchan: 4, fpp: 16, ppt: 20}
+	arm := func() {
+		sample := []*packets.Packet{gen.packet(), gen.packet(), gen.packet(), gen.packet()}
+		dastard.VerifC17Abaco(as, sample, gen.next)
+	}
+	h.kind = "abaco"
+	h.ds = as
+	h.sc = dastard.VerifNewSourceControl(as, 8, 32)
+	h.sc.VerifSetActive(false)
+	dastard.VerifPointsOn()
+	dastard.VerifGate("loop.processed")
+	var holding atomic.Bool
+	stopRelease := make(chan struct{})
+	relDone := make(chan struct{})
+	go func() { // lets the loop through its gate at once while data flows, 300 ms late once the stream has stopped
+		defer close(relDone)
+		for {
+			select {
+			case <-stopRelease:
+				return
+			default:
+			}
+			ws := dastard.VerifParked()
+			if len(ws) == 0 {
+				time.Sleep(200 * time.Microsecond)
+				continue
+			}
+			if holding.Load() {
+				time.Sleep(300 * time.Millisecond)
+			}
+			for _, w := range ws {
+				dastard.VerifRelease(w.ID)
+			}
+		}
+	}()
+	arm()
+	s := h.spawnStart()
+	if !s.wait(5*time.Second) || s.ret != 0 {
+		close(stopRelease)
+		<-relDone
+		return h.finish(true)
+	}
+	h.flagOn()
+	lcWaitTrace(3*time.Second, func(tr []dastard.VerifEvent) bool { return lcCount(tr, "loop.processed") >= 3 })
+	// from now on every processed block is held for 300 ms; only when one such block has gone by is the stream
+	// stopped, so the LAST block (whichever it is) is certainly held
+	holding.Store(true)
+	base := lcCount(dastard.VerifTrace(0), "loop.processed")
+	lcWaitTrace(3*time.Second, func(tr []dastard.VerifEvent) bool { return lcCount(tr, "loop.processed") >= base+2 })
+	gen.stopped.Store(true)
+	t0 := time.Now()
+	ended := lcWaitTrace(7500*time.Millisecond, func([]dastard.VerifEvent) bool { return h.ds.GetState() == dastard.Inactive })
+	dastard.VerifNote(fmt.Sprintf("obs.selfend.%d.%d.%d", b2i(ended), int(h.ds.GetState()), int(time.Since(t0)/time.Second)))
+	close(stopRelease)
+	<-relDone
+	h.openGates()
+	if ended {
+		// restartable: re-arm the devices (as a client's Configure would) and run again
+		gen.stopped.Store(false)
+		arm()
+		s2 := h.spawnStart()
+		if s2.wait(5*time.Second) && s2.ret == 0 {
+			lcWaitTrace(2*time.Second, func(tr []dastard.VerifEvent) bool {
+				return lcCount(tr, "start.runStarted") >= 2 && lcCount(tr, "loop.processed") >= 4
+			})
+		}
 	}
 	return h.finish(true)
 }
